@@ -185,9 +185,11 @@ enum Leaf {
     FailK,
     /// an included template fails after opening scopes of its own
     FailInc,
+    /// every builtin filter / test / function that is handed the `State` is applied here
+    Bi,
 }
-const LEAVES: [(Leaf, &str); 9] =
-    [(Leaf::Fail, "fail"), (Leaf::FailK, "failk"), (Leaf::FailInc, "finc"), (Leaf::T, "T"), (Leaf::Empty, "empty"), (Leaf::Brk, "brk"), (Leaf::Cont, "cont"), (Leaf::Rec, "rec"), (Leaf::RecF, "recf")];
+const LEAVES: [(Leaf, &str); 10] =
+    [(Leaf::Bi, "bi"), (Leaf::Fail, "fail"), (Leaf::FailK, "failk"), (Leaf::FailInc, "finc"), (Leaf::T, "T"), (Leaf::Empty, "empty"), (Leaf::Brk, "brk"), (Leaf::Cont, "cont"), (Leaf::Rec, "rec"), (Leaf::RecF, "recf")];
 
 #[derive(Clone, Debug)]
 struct Shape {
@@ -224,7 +226,7 @@ impl Shape {
     fn admissible(&self) -> bool {
         // blocks are not allowed inside macros / call blocks; a block name may appear once
         match self.leaf {
-            Leaf::T | Leaf::Empty => true,
+            Leaf::T | Leaf::Empty | Leaf::Bi => true,
             // a failure is only interesting when something swallows it and rendering goes on
             Leaf::Fail | Leaf::FailInc => self.kinds.iter().any(|k| Shape::is_try(*k)),
             Leaf::FailK => {
@@ -299,6 +301,7 @@ impl Shape {
             Leaf::RecF => "recurse-captured".into(),
             Leaf::T => "plain".into(),
             Leaf::Empty => "empty-body".into(),
+            Leaf::Bi => "builtins-with-state".into(),
             Leaf::Fail | Leaf::FailK | Leaf::FailInc => {
                 // the innermost construct that swallows the failure and what lies between
                 let mut between: Vec<&str> = vec![];
@@ -351,8 +354,11 @@ impl Shape {
     }
     fn src_at(&self, i: usize, s: &mut String) {
         if i == self.kinds.len() {
+            if self.leaf == Leaf::Bi {
+                s.push_str(&bi_src());
+            }
             s.push_str(match self.leaf {
-                Leaf::T | Leaf::Empty => "",
+                Leaf::T | Leaf::Empty | Leaf::Bi => "",
                 Leaf::Brk => "{% break %}",
                 Leaf::Cont => "{% continue %}",
                 Leaf::Rec => "{{ loop(x) }}",
@@ -458,7 +464,11 @@ enum XVal {
 
 #[derive(Clone)]
 struct Scope {
-    ae: bool,
+    /// auto-escape mode: 0 none, 1 html, 2 the custom mode of the `ae-custom` configuration
+    ae: u8,
+    /// the mode the running activation of the interpreter was entered with (what
+    /// `{% autoescape true %}` falls back to): macros, call bodies and blocks start a new one
+    act_base: u8,
     w: Option<usize>,
     x: XVal,
     /// argument of the innermost try-called macro that is lexically visible
@@ -485,7 +495,7 @@ struct Params {
     /// iteration (a C03 matter); both behaviours are accepted by this oracle
     else_after_first_break: bool,
     /// the environment's auto-escape callback turns escaping on for every template
-    base_ae: bool,
+    base_ae: u8,
 }
 
 struct Spec<'a> {
@@ -498,7 +508,7 @@ struct Spec<'a> {
 impl Spec<'_> {
     fn piece(&self, d: usize, tag: char, sc: &Scope, out: &mut String) {
         write!(out, "[{d}{tag}]").unwrap();
-        out.push_str(if sc.ae { "&lt;" } else { "<" });
+        out.push_str(esc_lt(sc.ae));
         match sc.w {
             Some(d) => write!(out, "w{d}").unwrap(),
             None => out.push('-'),
@@ -507,7 +517,7 @@ impl Spec<'_> {
         if let Some(d) = sc.ma {
             write!(out, "a{d}").unwrap();
         }
-        write!(out, "shape.txt~{}", sc.block.as_deref().unwrap_or("-")).unwrap();
+        write!(out, "shape.txt~{}~{}", sc.block.as_deref().unwrap_or("-"), ["N", "H", "C"][sc.ae as usize]).unwrap();
     }
 
     fn tree() -> Vec<XVal> {
@@ -555,8 +565,16 @@ impl Spec<'_> {
 
     fn node(&mut self, i: usize, sc: &Scope, out: &mut String) -> Flow {
         if i == self.shape.kinds.len() {
+            if self.shape.leaf == Leaf::Bi {
+                // `bz|e` escapes with the mode in effect, or the template's own one when escaping is off
+                let target = if sc.ae != 0 { sc.ae } else { mode_on(self.p.base_ae) };
+                out.push_str(esc_lt(target));
+                write!(out, "[{}]", bi_rest_expected()).unwrap();
+                // a capture taken here is marked safe exactly when escaping is on
+                out.push_str(if sc.ae != 0 { "1" } else { "0" });
+            }
             return match self.shape.leaf {
-                Leaf::T | Leaf::Empty => Flow::Normal,
+                Leaf::T | Leaf::Empty | Leaf::Bi => Flow::Normal,
                 Leaf::Brk => Flow::Break,
                 Leaf::Cont => Flow::Continue,
                 Leaf::Fail | Leaf::FailInc => Flow::Fail,
@@ -662,7 +680,7 @@ impl Spec<'_> {
             }
             Kind::Ae1 | Kind::Ae0 => {
                 let mut inner = sc.clone();
-                inner.ae = self.shape.kinds[i] == Kind::Ae1;
+                inner.ae = if self.shape.kinds[i] == Kind::Ae1 { mode_on(sc.act_base) } else { 0 };
                 let f = self.body(i, 'A', 'B', &inner, out);
                 if f != Flow::Normal {
                     return f;
@@ -698,6 +716,7 @@ impl Spec<'_> {
             }
             Kind::Mac | Kind::Blk => {
                 let mut inner = sc.clone();
+                inner.act_base = sc.ae;
                 inner.block = if self.shape.kinds[i] == Kind::Blk { Some(format!("b{d}")) } else { None };
                 // a macro writes into its own buffer, which is dropped when it fails
                 let mut buf = String::new();
@@ -712,6 +731,7 @@ impl Spec<'_> {
             }
             Kind::TMac | Kind::TBlk => {
                 let mut inner = sc.clone();
+                inner.act_base = sc.ae;
                 if self.shape.kinds[i] == Kind::TMac {
                     inner.ma = Some(d);
                     inner.block = None;
@@ -728,6 +748,7 @@ impl Spec<'_> {
             }
             Kind::TCal => {
                 let mut inner = sc.clone();
+                inner.act_base = sc.ae;
                 inner.block = None;
                 let mut buf = String::new();
                 let f = self.body(i, 'A', 'B', &inner, &mut buf);
@@ -743,7 +764,7 @@ impl Spec<'_> {
                 let mut inner = sc.clone();
                 match self.shape.kinds[i] {
                     Kind::SeqW => inner.w = Some(d),
-                    Kind::SeqA => inner.ae = true,
+                    Kind::SeqA => inner.ae = mode_on(sc.act_base),
                     _ => {}
                 }
                 self.piece(d, 'A', &inner, out);
@@ -754,12 +775,14 @@ impl Spec<'_> {
             }
             Kind::SeqI | Kind::SeqM | Kind::SeqN | Kind::SeqH | Kind::SeqP => {
                 // the included templates have their own auto-escape mode (by file name)
-                out.push_str(match self.shape.kinds[i] {
-                    Kind::SeqI => if self.p.base_ae { "i1&lt;&lt;" } else { "i1<&lt;" },
-                    Kind::SeqH => if self.p.base_ae { "i1&lt;" } else { "i1<" },
-                    Kind::SeqN => "",
-                    _ => "m",
-                });
+                let txt: String = match self.shape.kinds[i] {
+                    // inc.txt runs in the environment's mode for it, inc.html with escaping on
+                    Kind::SeqI => format!("i1{}{}", esc_lt(self.p.base_ae), esc_lt(mode_on(self.p.base_ae))),
+                    Kind::SeqH => format!("i1{}", esc_lt(self.p.base_ae)),
+                    Kind::SeqN => String::new(),
+                    _ => "m".to_string(),
+                };
+                out.push_str(&txt);
                 let f = self.node(i + 1, sc, out);
                 if f != Flow::Normal {
                     return f;
@@ -767,6 +790,7 @@ impl Spec<'_> {
             }
             Kind::Call => {
                 let mut inner = sc.clone();
+                inner.act_base = sc.ae;
                 inner.block = None;
                 let mut buf = String::new();
                 let f = self.body(i, 'A', 'B', &inner, &mut buf);
@@ -787,7 +811,7 @@ impl Spec<'_> {
 
     fn run(shape: &Shape, p: &Params) -> Option<String> {
         let mut sp = Spec { shape, p, stray: false };
-        let sc = Scope { ae: p.base_ae, w: None, x: XVal::Undef, ma: None, block: None };
+        let sc = Scope { ae: p.base_ae, act_base: p.base_ae, w: None, x: XVal::Undef, ma: None, block: None };
         let mut out = String::new();
         sp.piece(0, 'S', &sc, &mut out);
         let f = sp.node(0, &sc, &mut out);
@@ -823,6 +847,8 @@ enum Cfg {
     Formatter,
     /// auto-escape callback: HTML for every template
     AeHtml,
+    /// auto-escape callback: a custom mode for every template, with a formatter implementing it
+    AeCustom,
     /// `<% %>`, `<< >>`, `<# #>` delimiters
     CustomSyntax,
     DebugOff,
@@ -830,11 +856,12 @@ enum Cfg {
     Loader,
     NoFuel,
 }
-const CFGS: [(Cfg, &str); 8] = [
+const CFGS: [(Cfg, &str); 9] = [
     (Cfg::Default, "default"),
     (Cfg::Chainable, "chainable"),
     (Cfg::Formatter, "formatter"),
     (Cfg::AeHtml, "ae-html"),
+    (Cfg::AeCustom, "ae-custom"),
     (Cfg::CustomSyntax, "custom-syntax"),
     (Cfg::DebugOff, "debug-off"),
     (Cfg::Loader, "loader"),
@@ -876,6 +903,21 @@ fn shape_env_cfg(cfg: Cfg, shape_src: Option<&str>) -> Environment<'static> {
         Cfg::Chainable => env.set_undefined_behavior(UndefinedBehavior::Chainable),
         Cfg::Formatter => env.set_formatter(|out, state, value| minijinja::escape_formatter(out, state, value)),
         Cfg::AeHtml => env.set_auto_escape_callback(|_| minijinja::AutoEscape::Html),
+        Cfg::AeCustom => {
+            env.set_auto_escape_callback(|_| minijinja::AutoEscape::Custom("x"));
+            env.set_formatter(|out, state, value| {
+                if value.is_safe() && value.kind() == minijinja::value::ValueKind::String {
+                    return out.write_str(value.as_str().unwrap_or_default()).map_err(minijinja::Error::from);
+                }
+                match state.auto_escape() {
+                    minijinja::AutoEscape::Custom("x") => {
+                        let escaped = value.to_string().replace('<', "%3C");
+                        out.write_str(&escaped).map_err(minijinja::Error::from)
+                    }
+                    _ => minijinja::escape_formatter(out, state, value),
+                }
+            });
+        }
         Cfg::CustomSyntax => {
             let syntax = minijinja::syntax::SyntaxConfig::builder()
                 .block_delimiters("<%", "%>")
@@ -929,8 +971,15 @@ fn shape_env_cfg(cfg: Cfg, shape_src: Option<&str>) -> Environment<'static> {
             Err(_) => Value::from("!E"),
         }
     });
+    env.add_function("issafe", |v: Value| -> String { if v.is_safe() { "1".into() } else { "0".into() } });
     env.add_function("probe", |state: &minijinja::State| -> String {
-        format!("{}~{}", state.name(), state.current_block().unwrap_or("-"))
+        // template name, current block and auto-escape mode as the engine's State reports them
+        let mode = match state.auto_escape() {
+            minijinja::AutoEscape::None => "N",
+            minijinja::AutoEscape::Html => "H",
+            _ => "C",
+        };
+        format!("{}~{}~{}", state.name(), state.current_block().unwrap_or("-"), mode)
     });
     if cfg == Cfg::Loader {
         let mut map: BTreeMap<String, String> = HELPERS.iter().map(|(n, s)| (n.to_string(), s.to_string())).collect();
@@ -968,7 +1017,7 @@ const ENTRIES: [(Entry, &str); 4] = [
 
 fn engine_ctx(p: &Params) -> Value {
     let tree = Value::from(minijinja::value::Serde(serde_json::json!([[[]], []])));
-    minijinja::context! { xs => p.xs.clone(), c => p.c, k => p.k, h => "<", tree => tree }
+    minijinja::context! { xs => p.xs.clone(), c => p.c, k => p.k, h => "<", bz => "<", tree => tree }
 }
 
 fn mismatch_text(ms: &[balance::Mismatch]) -> String {
@@ -989,6 +1038,24 @@ fn mismatch_text(ms: &[balance::Mismatch]) -> String {
         })
         .collect::<Vec<_>>()
         .join(";")
+}
+
+/// how `<` is written under an auto-escape mode
+fn esc_lt(mode: u8) -> &'static str {
+    match mode {
+        0 => "<",
+        1 => "&lt;",
+        _ => "%3C",
+    }
+}
+
+/// the mode `{% autoescape true %}` (or an html template) selects given the template's initial mode
+fn mode_on(base: u8) -> u8 {
+    if base == 0 {
+        1
+    } else {
+        base
+    }
 }
 
 /// sentinel pieces (`[dX]` + probes) of an output, wrappers of filters ignored
@@ -1049,6 +1116,39 @@ fn nested_text(ms: &[balance::NestedMismatch]) -> String {
         .join(";")
 }
 
+/// the builtins that take `&State` / `&mut State`, each applied once (kept in sync with the
+/// signatures in the sources by the table item C05_STATE_BUILTINS)
+const BI_COVERED: [&str; 29] = [
+    "escape", "replace", "join", "default", "int", "float", "sum", "attr", "min", "max", "sort", "list", "string",
+    "bool", "slice", "batch", "select", "selectattr", "reject", "rejectattr", "map", "unique", "chain", "zip", "format",
+    "is_in", "is_filter", "is_test", "debug",
+];
+
+const BI_REST: &str = "{{ 'ab'|replace('a', 'c') }}{{ [1, 2]|join('-') }}{{ nope|default('d') }}{{ '7'|int }}{{ '1.5'|float }}\
+{{ [1, 2]|sum }}{{ {'a': 5}|attr('a') }}{{ [3, 1]|min }}{{ [3, 1]|max }}{{ [2, 1]|sort|join }}{{ 'ab'|list|length }}{{ 5|string }}\
+{{ 1|bool }}{{ [1, 2, 3]|slice(2)|list|length }}{{ [1, 2, 3]|batch(2)|list|length }}{{ [0, 1, 2]|select|list|length }}\
+{{ [{'a': 1}, {'a': 0}]|selectattr('a')|list|length }}{{ [0, 1, 2]|reject|list|length }}\
+{{ [{'a': 1}, {'a': 0}]|rejectattr('a')|list|length }}{{ [1, 2]|map('string')|join }}{{ [1, 1, 2]|unique|list|length }}\
+{{ [1]|chain([2])|list|length }}{{ [1]|zip([2])|list|length }}{{ '%s'|format('k') }}{{ 1 is in([1]) }}{{ 'upper' is filter }}\
+{{ 'odd' is test }}{{ debug()|length > 0 }}";
+
+fn bi_src() -> String {
+    format!("{{{{ bz|e }}}}[{}]{{% set sc %}}x{{% endset %}}{{{{ issafe(sc) }}}}", BI_REST)
+}
+
+/// what the applications of the builtins print (independent of the auto-escape mode: letters,
+/// digits, `-` and `.` only), evaluated once outside any construct
+fn bi_rest_expected() -> &'static str {
+    static CELL: std::sync::OnceLock<String> = std::sync::OnceLock::new();
+    CELL.get_or_init(|| {
+        let env = shape_env();
+        balance::set_call_snapshots(false);
+        let rv = env.render_str(BI_REST, ()).unwrap_or_else(|e| format!("!builtin-error:{e}"));
+        balance::set_call_snapshots(true);
+        rv
+    })
+}
+
 fn params_for(shape: &Shape) -> Vec<Params> {
     let uses_xs = shape.kinds.iter().any(|k| matches!(k, Kind::For | Kind::ForE | Kind::ForEl | Kind::ForF));
     let uses_c = shape.kinds.iter().any(|k| matches!(k, Kind::IfC | Kind::IfEl | Kind::IfA));
@@ -1057,7 +1157,7 @@ fn params_for(shape: &Shape) -> Vec<Params> {
     for xs in if uses_xs { vec![vec![], vec![1, 2, 3]] } else { vec![vec![1, 2, 3]] } {
         for c in if uses_c { vec![true, false] } else { vec![true] } {
             for k in if uses_k { vec![1, 2] } else { vec![1] } {
-                v.push(Params { xs: xs.clone(), c, k, else_after_first_break: false, base_ae: false });
+                v.push(Params { xs: xs.clone(), c, k, else_after_first_break: false, base_ae: 0 });
             }
         }
     }
@@ -1205,6 +1305,10 @@ fn do_shape_n(out: &mut impl std::io::Write, shape: &Shape, verbose: bool, idx: 
     let name = shape.name();
     let class = shape.class();
     let src = shape.source();
+    let _ = bi_rest_expected();
+    // snapshots around every filter / test / function call cost an allocation per call: always on
+    // where the state-taking builtins are applied, on for every fourth shape otherwise
+    balance::set_call_snapshots(shape.leaf == Leaf::Bi || idx.map_or(true, |i| i % 4 == 0));
     let mut env = shape_env();
     let tname = "shape.txt";
     let added = guarded(|| env.add_template_owned(tname.to_string(), src.clone()));
@@ -1241,10 +1345,18 @@ fn do_shape_n(out: &mut impl std::io::Write, shape: &Shape, verbose: bool, idx: 
         let r = run_dynamic(&env, tname, shape, &last, entry, &src, verbose);
         writeln!(out, "R\t{}\t{}\t{} entry={}\t{}", name, class, params_name(&last), ename, r).unwrap();
     }
-    let cfgs: Vec<(Cfg, &str)> = match idx {
+    let mut cfgs: Vec<(Cfg, &str)> = match idx {
         Some(i) => vec![CFGS[1 + i % (CFGS.len() - 1)]],
         None => CFGS[1..].to_vec(),
     };
+    if shape.leaf == Leaf::Bi {
+        // the builtins under every auto-escape mode an environment can start a template in
+        for want in [Cfg::AeHtml, Cfg::AeCustom] {
+            if !cfgs.iter().any(|c| c.0 == want) {
+                cfgs.push(*CFGS.iter().find(|c| c.0 == want).unwrap());
+            }
+        }
+    }
     for (cfg, cname) in cfgs {
         let env2 = shape_env_cfg(cfg, Some(&src));
         if env2.get_template(tname).is_err() {
@@ -1252,7 +1364,11 @@ fn do_shape_n(out: &mut impl std::io::Write, shape: &Shape, verbose: bool, idx: 
             continue;
         }
         let mut p2 = last.clone();
-        p2.base_ae = cfg == Cfg::AeHtml;
+        p2.base_ae = match cfg {
+            Cfg::AeHtml => 1,
+            Cfg::AeCustom => 2,
+            _ => 0,
+        };
         let r = run_dynamic(&env2, tname, shape, &p2, Entry::Render, &syn(cfg, &src), verbose);
         writeln!(out, "R\t{}\t{}\t{} cfg={}\t{}", name, class, params_name(&last), cname, r).unwrap();
     }
@@ -1530,7 +1646,7 @@ fn do_extras(out: &mut impl std::io::Write) {
                 ("bad.html", "{% with y = 1 %}{% autoescape false %}{% set c %}x{% for i in [1] %}{{ fail() }}{% endfor %}{% endset %}{% endautoescape %}{% endwith %}"),
                 ("main.txt", "{% set g = 'G' %}{% if false %}{% block b %}{% with z = 1 %}{% include 'bad.html' %}{% endwith %}{% endblock %}{% endif %}{% for i in range(80) %}{{ try_block('b') }}{% endfor %}|{{ probe() }}{{ g }}{{ z is defined }}{{ y is defined }}{{ '<' }}Z"),
             ],
-            "!E!E!E!E!E!E!E!E!E!E!E!E!E!E!E!E!E!E!E!E!E!E!E!E!E!E!E!E!E!E!E!E!E!E!E!E!E!E!E!E!E!E!E!E!E!E!E!E!E!E!E!E!E!E!E!E!E!E!E!E!E!E!E!E!E!E!E!E!E!E!E!E!E!E!E!E!E!E!E!E|main.txt~-GFalseFalse<Z",
+            "!E!E!E!E!E!E!E!E!E!E!E!E!E!E!E!E!E!E!E!E!E!E!E!E!E!E!E!E!E!E!E!E!E!E!E!E!E!E!E!E!E!E!E!E!E!E!E!E!E!E!E!E!E!E!E!E!E!E!E!E!E!E!E!E!E!E!E!E!E!E!E!E!E!E!E!E!E!E!E!E|main.txt~-~NGFalseFalse<Z",
         ),
         (
             // super() into a failing parent block, forgiven by the function that rendered the block
@@ -1539,7 +1655,7 @@ fn do_extras(out: &mut impl std::io::Write) {
                 ("base.txt", "{% if false %}{% block b %}{% with p = 1 %}{{ fail() }}{% endwith %}{% endblock %}{% endif %}{% for i in [1, 2] %}{{ try_block('b') }}{% endfor %}|{{ probe() }}{{ q is defined }}{{ p is defined }}Z"),
                 ("main.txt", "{% extends 'base.txt' %}{% block b %}{% with q = 1 %}<{{ super() }}>{% set v = super() %}{% endwith %}{% endblock %}"),
             ],
-            "!E!E|base.txt~-FalseFalseZ",
+            "!E!E|base.txt~-~NFalseFalseZ",
         ),
         (
             // a macro that fails inside an include inside a loop, after opening scopes of its own
@@ -1548,7 +1664,7 @@ fn do_extras(out: &mut impl std::io::Write) {
                 ("bad.html", "{% with y = 1 %}{% set c %}x{{ fail() }}{% endset %}{% endwith %}"),
                 ("main.txt", "{% set g = 'G' %}{% macro m(a) %}{% with z = a %}{% for i in [1, 2] %}{% autoescape true %}{% if i == 2 %}{% include 'bad.html' %}{% endif %}{{ i }}{% endautoescape %}{% endfor %}{% endwith %}{% endmacro %}{% with o = 'O' %}{% for k in [1, 2] %}[{{ try_call(m, k) }}{{ o }}{{ g }}{{ a is defined }}{{ z is defined }}{{ '<' }}]{% endfor %}{% endwith %}{{ o is defined }}|{{ probe() }}Z"),
             ],
-            "[!EOGFalseFalse<][!EOGFalseFalse<]False|main.txt~-Z",
+            "[!EOGFalseFalse<][!EOGFalseFalse<]False|main.txt~-~NZ",
         ),
         (
             "extra:recurse-from-block",
@@ -1601,6 +1717,7 @@ fn do_extras(out: &mut impl std::io::Write) {
 }
 
 fn main() {
+    balance::set_call_snapshots(true);
     // panics are results; remember where the last one happened (its site)
     std::panic::set_hook(Box::new(|info| {
         let loc = info
@@ -1628,12 +1745,12 @@ fn main() {
                     dump_template(&mut out, &format!("extra:shape-helpers/{}", n), "extra", &env.get_template(n).unwrap());
                 }
             }
-            let mut count = 0usize;
+            // the shapes: exhaustive enumeration, then a seeded sample of deeper nestings
+            let mut shapes: Vec<(usize, Shape)> = vec![];
             enumerate(depth, &mut |s| {
-                do_shape_n(&mut out, s, false, Some(count));
-                count += 1;
+                let i = shapes.len();
+                shapes.push((i, s.clone()));
             });
-            // seeded sample of deeper nestings
             let mut rng = Rng::new(seed_from_env());
             let (n, lo, hi) = if tier == "thorough" { (80_000, 5, 7) } else { (12_000, 4, 6) };
             let mut done = 0;
@@ -1644,7 +1761,11 @@ fn main() {
                 let kinds: Vec<Kind> = (0..d).map(|_| rng.pick(&KINDS).0).collect();
                 // bias towards loop controls: they are what the property is about
                 let leaf = match rng.below(10) {
-                    0 => if rng.chance(1, 2) { Leaf::T } else { Leaf::Empty },
+                    0 => match rng.below(3) {
+                        0 => Leaf::T,
+                        1 => Leaf::Empty,
+                        _ => Leaf::Bi,
+                    },
                     1..=4 => Leaf::Brk,
                     5..=7 => Leaf::Cont,
                     8 => match rng.below(4) {
@@ -1656,9 +1777,36 @@ fn main() {
                     _ => if rng.chance(1, 2) { Leaf::Fail } else { Leaf::FailK },
                 };
                 let s = Shape { kinds, leaf };
-                if s.admissible() && do_shape_n(&mut out, &s, false, Some(tries)) {
+                // blocks inside macros do not compile: not worth a sample
+                let block_in_macro = s.kinds.iter().enumerate().any(|(i, k)| {
+                    matches!(k, Kind::Blk | Kind::TBlk)
+                        && s.kinds[..i].iter().any(|m| matches!(m, Kind::Mac | Kind::Call | Kind::TMac | Kind::TCal))
+                });
+                if s.admissible() && !block_in_macro {
+                    shapes.push((tries, s));
                     done += 1;
                 }
+            }
+            // run them on a few threads (all hook state is thread-local); output in shape order
+            let nthreads = std::env::var("VERIF_THREADS").ok().and_then(|x| x.parse().ok()).unwrap_or(4usize).max(1);
+            let chunk = (shapes.len() + nthreads - 1) / nthreads.max(1);
+            let bufs: Vec<Vec<u8>> = std::thread::scope(|sc| {
+                let handles: Vec<_> = shapes
+                    .chunks(chunk.max(1))
+                    .map(|part| {
+                        sc.spawn(move || {
+                            let mut buf: Vec<u8> = Vec::with_capacity(1 << 20);
+                            for (i, shape) in part.iter() {
+                                do_shape_n(&mut buf, shape, false, Some(*i));
+                            }
+                            buf
+                        })
+                    })
+                    .collect();
+                handles.into_iter().map(|h| h.join().unwrap()).collect()
+            });
+            for b in bufs {
+                out.write_all(&b).unwrap();
             }
         }
         Some("one") => {
@@ -1683,7 +1831,7 @@ fn main() {
                     let t = env.get_template("src.txt").unwrap();
                     dump_template(&mut out, &format!("src:{}", path), "src", &t);
                     let _ = balance::take_mismatches();
-                    let p = Params { xs: vec![1, 2, 3], c: true, k: 1, else_after_first_break: false, base_ae: false };
+                    let p = Params { xs: vec![1, 2, 3], c: true, k: 1, else_after_first_break: false, base_ae: 0 };
                     let res = guarded(|| t.render(engine_ctx(&p)));
                     let ms = balance::take_mismatches();
                     writeln!(out, "render: {:?}\nmismatches: [{}]", res, mismatch_text(&ms)).unwrap();
